@@ -338,6 +338,10 @@ def monitor(case, impl, obs):
         if union != cur:
             return 'is_reserved column %s differs from the union of the inputs in flight %s' % (sorted(cur), sorted(union))
         prev = cur
+    for b in range(n):
+        if impl['builds'][b]['phase'] in ('failed', 'released', 'broadcast') and held[b]:
+            return 'build %d has %s but the outputs %s it reserved were never released: they stay unavailable' % (
+                b, impl['builds'][b]['phase'], sorted(held[b]))
     by_rid = {r['rid']: r for r in obs['rows_before']}
     for b in range(n):
         took = impl['builds'][b]['took']
